@@ -391,7 +391,8 @@ class VirtualClock:
             self.zero_run = 0
         self.sleeps.append((d, f))
         if len(self.sleeps) > 100000:
-            raise HarnessError("virtual clock: runaway sleep loop")
+            raise Violation("C20.pacing", "step() called sleep() more than 100000 times in one run on the virtual clock (it never "
+                                          "stops waiting although the clock advances)", "C20.pacing/runaway-sleep")
         if d > 0:
             adv = d * f
             if adv < 2.0 ** -16 or self.t + adv == self.t:
@@ -453,7 +454,8 @@ class Interp:
         P.hev = self._reg(proc, f"P{pid}", "P")
         occ = self.h.last_occ
         if occ is None or occ.kind != "init":
-            raise HarnessError("spawn did not schedule an Initialize")
+            raise Violation("C01.start", f"creating P{pid} did not put its start on the agenda as the latest occurrence "
+                                         f"(latest is {occ.kind if occ else None})", "C01.start/not-scheduled")
         occ.pid = pid
         P.init_occ = occ
         self.log(parent, None, "spawn", pid)
@@ -755,7 +757,9 @@ class Interp:
                 return
             occ = h.last_occ
             if occ is None or occ.kind != "intr" or len(h.occs) != n_before + 1:
-                raise HarnessError("interrupt did not schedule exactly one Interruption")
+                raise Violation("C04.delivery", f"interrupt() of live P{T.pid} did not put exactly one interruption on the agenda "
+                                                f"({len(h.occs) - n_before} new occurrences; delivered on the spot or lost?)",
+                                "C04.delivery/not-scheduled")
             occ.victim = T.pid
             occ.cause = cause
             occ.issuer = pid
@@ -1001,7 +1005,7 @@ def eval_cond(hev):
             k = kids[key[2]]
             if k.kind == "C":
                 raise Violation("C05.early", f"{k.name} was processed although its predicate does not hold", "C05.early/nested")
-            raise HarnessError("processed operand without outcome")
+            raise Violation("C05.value", f"operand {k.name} counts as processed but carries no outcome", "C05.value/no-outcome")
         if out[0] == "exc":
             return (key[0], now, out)
         if (mode == "all" and count == len(kids)) or (mode == "any" and count > 0):
